@@ -84,8 +84,6 @@ def fixtures() -> dict:
     out32, parity = fastec.tap_tweak_pubkey(internal, lh)
     control = bytes([0xC0 | parity]) + internal
     # block filter with three elements
-    from vlib.models import tx_ref
-
     bh = S.expand(5, 32)
     elements = [b"\x51", bytes.fromhex("0014" + "11" * 20), S.expand(6, 25)]
     filt = block_filter.BasicBlockFilter.parse(block_ref.gcs_filter(bh[::-1], set(elements)), bh)
@@ -145,6 +143,11 @@ TABLE_NAMES = sorted(_table())
 # Predicates documented to refuse "what cannot be an answer" (CONTRIBUTING.md on the `check_*` prefix; musig2.partial_sig_verify_'s docstring,
 # after BIP327: a pubnonce or pubkey that is not a point is refused): a BTClib* refusal is inside their contract, a foreign exception is not.
 MAY_REFUSE = {"taproot.check_output_pubkey", "engine.script.check_pub_key", "musig2.partial_sig_verify", "musig2.partial_sig_verify_"}
+# Three more bool functions refuse a malformed value with a BTClibValueError, and the repository's own suite pins that
+# (tests/input_validation_test.py expects the refusal of is_negative_bits and reads_back, tests/curves/curve_test.py that of is_on_curve with
+# y = p): they are none of the verifier families C19 names (signature, proof, address, merkle branch, filter), so a library refusal is inside
+# their contract here as well; a foreign exception from them is still a violation.
+MAY_REFUSE |= {"proof_of_work.is_negative_bits", "miniscript.reads_back", "secp256k1.is_on_curve"}
 
 # ------------------------------------------------------------------------------------------------ value specs (JSON) of each declared type
 INT_EDGES = (0, 1, -1, 2, N - 1, N, N + 1, P - 1, P, P + 1, 2**255, 2**256 - 1, 2**256, 2**257, -(2**256), 2**31, 2**32, 2**63, 2**64, 10**80)
